@@ -169,7 +169,8 @@ class Gen:
             if kind == "compt" and self.r.random() < 0.7:
                 return "setdl %d %d\nupdate %d" % (tgt, 2 * self.r.randrange(0, self.p["max_phase"] + 2), tgt)
             if kind in ("comp", "compt"):
-                return "setint %d %d %d %d" % (tgt, self.r.randrange(0, 3), self.r.choice([0, 1, 2, 3]), self.r.choice([0, 1, 2]))
+                a = "setint %d %d %d %d" % (tgt, self.r.randrange(0, 3), self.r.choice([0, 1, 2, 3]), self.r.choice([0, 1, 2]))
+                return a + ("\nupdate %d" % tgt if self.r.random() < 0.6 else "")
             return "update %d" % tgt
         if k < 0.86 + self.p["dropdisp_prob"]:
             if tgt == self_h:
